@@ -9,7 +9,7 @@ import random
 import re
 
 from harness.bounded import BoundedContract, chunked
-from props.C14 import ARCHS, base_mnemo, family, known_groups, machine
+from props.C14 import ARCHS, base_mnemo, family, known_groups, machine, split_failures
 from props.C15 import same_operand
 
 PROPERTY = {
@@ -135,12 +135,7 @@ class ParseCases(BoundedContract):
         logging.disable(logging.CRITICAL)
         a, k, g = case
         n, fails = run_chunk(a, k)
-        gs = known_groups("C16")
-        if g:
-            mine = [(t, w) for t, w in fails if t in gs[g][1]]
-        else:
-            known = set().union(*(ts for _, ts in gs.values()))
-            mine = [(t, w) for t, w in fails if t not in known]
+        mine = split_failures("C16", fails, g)
         if not mine:
             return (True, "", n > 0)
         seen = {}
